@@ -45,6 +45,9 @@ pub struct LifeCfg {
     pub o_order: bool,
     /// deviation script: horizon value pattern
     pub script: u8,
+    /// start every history from a region that already holds this many copies of the second value
+    /// (item-count thresholds such as > 65535 items)
+    pub prefill: usize,
     /// offer merge_regions on coded regions too; a push refused after such a merge is within the
     /// region's acceptance contract (C06/C07) and ends the branch
     pub coded_merges: bool,
@@ -75,6 +78,7 @@ impl LifeCfg {
             exact_total: false,
             o_order: false,
             script: 0,
+            prefill: 0,
             coded_merges: false,
             finite_only: false,
         }
@@ -502,6 +506,9 @@ fn twin_desc(t: Twin) -> &'static str {
 
 impl<S: Spec> Machine for LifeMachine<S> {
     fn name(&self) -> String {
+        if self.cfg.prefill > 0 {
+            return format!("life/{}/{}/prefilled{}", self.cfg.prop, S::name(), self.cfg.prefill);
+        }
         format!("life/{}/{}/s{}", self.cfg.prop, S::name(), self.cfg.script)
     }
     fn reset(&mut self) {
@@ -512,6 +519,21 @@ impl<S: Spec> Machine for LifeMachine<S> {
         self.coded_merged = false;
         self.last_midx = None;
         self.tags.clear();
+        if self.cfg.prefill > 0 {
+            let v = self.values[1 % self.values.len()].clone();
+            for _ in 0..self.cfg.prefill {
+                let idx = S::canon_push(&mut self.a.r, &v);
+                self.a.issued.push((idx, 1 % self.values.len()));
+                if let Some(t) = &mut self.twin {
+                    let ti = S::canon_push(&mut t.r, &v);
+                    t.issued.push((ti, 1 % self.values.len()));
+                }
+                if self.cfg.o_model && S::MODELLED {
+                    self.last_midx = Some(S::m_push(&mut self.m, &v));
+                }
+            }
+            self.count = self.cfg.prefill;
+        }
     }
     fn enabled(&self) -> Vec<OpId> {
         (0..self.ops.len() as u32).collect()
